@@ -17,7 +17,7 @@ vars == <<kind, toks, argv, muts, expect, label, phase>>
 
 Alphabet == <<"select", "name", "size", ",", "from", ".", "where", "=", ">", "and", "or", "not", "(", ")", "{", "}",
               "order", "by", "desc", "limit", "into", "json", "1", "'a'", "*", "like", "/x", "-", "group", "between", "is_dir", "><",
-              "count(*)", "0", "\"">>
+              "count(*)", "0", "\"", "é", "'ż*'">>
 Base == << <<"select", "name", ",", "size", "from", ".", "where", "size", ">", "1", "and", "name", "like", "'%a%'", "order", "by", "2", "desc", "limit", "3", "into", "json">>,
            <<"name", "from", ".", "where", "(", "size", ">", "1", "or", "is_dir", ")", "and", "not", "name", "=", "'x'">>,
            <<"select", "count(*)", ",", "max(size)", "from", ".", "group", "by", "ext">>,
@@ -59,6 +59,7 @@ Runtime == <<
   [q |-> "select name from . where modified = '2017-02-30'", why |-> "bad-date"],
   [q |-> "select name from . where modified = '2017-05-01 25:00'", why |-> "bad-date"],
   [q |-> "select name from . where modified gt '+x'", why |-> "bad-date"],
+  [q |-> "select name from . where modified gt '+éé'", why |-> "bad-date"],
   [q |-> "select name from . where modified = '-'", why |-> "bad-date"],
   [q |-> "select name from . where modified < '+1.5'", why |-> "bad-date"],
   [q |-> "select name from . where modified >= -x", why |-> "bad-date"],
@@ -77,6 +78,8 @@ FuncCalls == << "substr(name, 6, 3)", "substr(name, 40)", "substr(name, -30, 2)"
                 "format_size(size, '%.4294967296')", "format_size(99999999999999999999, '%.1')", "substr(name, 1, 99999999999999999999)", "rand(99999999999999999999)",
                 "power(99999999999999999999, 2)", "year(99999999999999999999)", "lower(name", "concat(name, 'a'", "substr(name, 1,",
                 "year()", "year(0)", "month(size)", "day('31')", "dow('x y z')", "year('2017-02-30')", "day('0000-00-00')",
+                "size % 0", "7 % (3 - 3)", "10 % size", "size mod 0", "1 / 0", "size / (size - size)", "0 % 0", "hardlinks % (hardlinks - 1)",
+                "upper('é')", "length('日本')", "substr('żółć', 2, 2)", "concat(name, 'é')",
                 "rand(0)", "rand(5, 1)", "rand(3, 3)", "rand(-7, -7)", "rand(0, 0)", "rand(1, 2)", "rand(x)", "rand(1, x)", "contains()", "contains(name)", "has_xattr()", "xattr()", "has_cap()",
                 "curdate(1)", "current_uid(x)", "min()", "max(name)", "avg(name)", "sum(name)", "count()", "var_pop(name)", "stddev(mode)" >>
 Opts == <<"-c", "--config", "/c", "-i", "/i", "-v", "/?", "--nocolor", "--help", "-h", "/x", "--no-color", "-", "--">>
